@@ -295,7 +295,7 @@ fn short(p: &str) -> &str {
 
 pub fn run(args: &Args) -> ! {
     let ctx = Ctx::new("C19", "fault_enumeration", args);
-    ctx.rule("fault enumeration: for every shipped project file (.ctehexml, legacy .cte, KyGananciasSolares.txt, NewBDL_O.tbl; located by glob at run time) and every line: delete / duplicate / truncate-after / first number -> abc, 1e39, -1, NaN / rename the quoted name / delete the enclosing block; plus the intact file. thorough = every line; quick = a seeded 1/48 slice of the lines of every file (all edit kinds on each chosen line). Each damaged text goes through parse (+ LIDER catalogue merge) + Model::try_from (kyg/tbl: parse) in a worker process under a 60 s watchdog: Ok or Err passes, panic / hang / process death is a violation, one per distinct panic signature (file + function + masked message). Non-trivial: the damaged line is neither blank nor a comment.");
+    ctx.rule("fault enumeration: for every shipped project file (.ctehexml, legacy .cte, KyGananciasSolares.txt, NewBDL_O.tbl; located by glob at run time) and every line: delete / duplicate / truncate-after / first number -> abc, 1e39, -1, NaN / rename the quoted name / delete the enclosing block; plus the intact file. thorough = every line; quick = a seeded 1/48 slice of the lines of every file plus one line of every distinct attribute key and block type per file kind (all edit kinds on each chosen line). Each damaged text goes through parse (+ LIDER catalogue merge) + Model::try_from (kyg/tbl: parse) in a worker process under a 60 s watchdog: Ok or Err passes, panic / hang / process death is a violation, one per distinct panic signature (file + function + masked message). Non-trivial: the damaged line is neither blank nor a comment.");
     ctx.assume("the LIDER catalogue is decoded once per worker and merged per case exactly as parse_with_catalog does; 1 case in 64 goes through the real parse_with_catalog as a cross-check");
     ctx.replay_regressions(replay_one);
     let files = corpus();
@@ -304,6 +304,31 @@ pub fn run(args: &Args) -> ! {
         Tier::Quick => 48,
         Tier::Thorough => 1,
     };
+    // (kind, key) -> (hash, file, line)
+    let mut strata: std::collections::BTreeMap<(String, String), (u64, String, usize)> = std::collections::BTreeMap::new();
+    if denom != 1 {
+        for f in &files {
+            let path = f.to_string_lossy().to_string();
+            let text = read_text(&path);
+            let eol = if text.contains("\r\n") { "\r\n" } else { "\n" };
+            let kindname = format!("{:?}", kind_of(&path));
+            for (i, l) in text.split(eol).enumerate() {
+                let key = match l.split_once('=') {
+                    Some((k, _)) if !k.trim().starts_with('"') => k.trim().to_string(),
+                    Some((_, v)) => format!("=block:{}", v.trim()),
+                    None => continue,
+                };
+                if key.len() > 40 {
+                    continue;
+                }
+                let hsh = mix(ctx.seed(), &format!("{}#{}", path, key), i as u64);
+                let e = strata.entry((kindname.clone(), key)).or_insert((hsh, path.clone(), i));
+                if hsh < e.0 {
+                    *e = (hsh, path.clone(), i);
+                }
+            }
+        }
+    }
     for f in &files {
         let path = f.to_string_lossy().to_string();
         let text = read_text(&path);
@@ -314,8 +339,14 @@ pub fn run(args: &Args) -> ! {
             line: 0,
             edit: "intact".into(),
         });
+        // stratification: besides the random slice, one line (seeded) of every distinct attribute key and
+        // block type per file kind over the whole corpus, so that every kind of value is damaged at least once
+        let lines: Vec<&str> = text.split(eol).collect();
+        let kindname = format!("{:?}", kind_of(&path));
+        let strat: std::collections::HashSet<usize> = strata.iter().filter(|(k, v)| k.0 == kindname && v.1 == path).map(|(_, v)| v.2).collect();
+        let _ = &lines;
         for i in 0..n {
-            let pick = denom == 1 || mix(ctx.seed(), &path, i as u64) % denom == 0;
+            let pick = denom == 1 || strat.contains(&i) || mix(ctx.seed(), &path, i as u64) % denom == 0;
             if !pick {
                 continue;
             }
